@@ -36,6 +36,9 @@ func verifyLists(msg string) string {
 }
 
 func handleMore(toks []string) (string, bool) {
+	if r, ok := handleFaults(toks); ok {
+		return r, true
+	}
 	switch toks[0] {
 	case "hist":
 		return runHist(toks[1], false), true
